@@ -709,8 +709,9 @@ func observeCallbackExact(c *Ctx, id string) {
 	io := w.Method("couchbase", rec.Obj().Name(), "IsOutdated")
 	c.need(gm != nil && io != nil, id, "getMinSeqNo / IsOutdated")
 	resP, errP := cb.Params[0].Name(), cb.Params[1].Name()
-	c.need(len(obs.Params) == 6, id, "observe(vbID, copy index, generation, branch id, wait group)")
-	rN, idxN, genN, brN := obs.Params[0].Name(), obs.Params[2].Name(), obs.Params[3].Name(), obs.Params[4].Name()
+	roles := observeRoles(w, obs, cb)
+	c.need(roles.ok, id, "observe(vbID, copy index, generation, branch id, wait group)")
+	rN, idxN, genN, brN := roles.rN, roles.idxN, roles.genN, roles.brN
 	rmClosed := flagSetBy(w, w.Method("couchbase", "rollbackMitigation", "Stop"))
 	if rmClosed == "" {
 		rmClosed = "closed"
@@ -888,6 +889,122 @@ func observeCallbackExact(c *Ctx, id string) {
 		}
 		return ""
 	}, "Done once and first; stale/closed → nothing; transient error → nothing, survived; other error → panic; else outdated ⇒ record both fields, then min, then dispatch; branch id refreshed ⇔ it changed")
+}
+
+// observeRoles names what the observe callback captures, by role: the mitigation (the receiver), the copy index and
+// the generation (the two int inputs of observe: the generation is the one the callback compares with the live
+// generation), and the branch id (the VbUUID input). The inputs may be parameters or fields of a parameter bundle,
+// captured directly or through a local copy.
+type obsRoles struct {
+	rN, idxN, genN, brN string // as the callback captures them
+	vb, idx, gen, br    vparam // as observe takes them
+	ok                  bool
+}
+
+// effectVArg: what a recorded call of callee was given for the formal input v (a field of the bundle for a bundled one).
+func effectVArg(e Effect, callee *ssa.Function, v vparam) AV {
+	for i, p := range callee.Params {
+		if p != v.P || i >= len(e.Args) {
+			continue
+		}
+		if v.F < 0 {
+			return e.Args[i]
+		}
+		if s, ok := e.Args[i].(avStruct); ok && s.c != nil && v.F < len(s.c.fields) && s.c.fields[v.F] != nil {
+			return s.c.fields[v.F].val
+		}
+	}
+	return nil
+}
+
+func observeRoles(w *World, obs, cb *ssa.Function) (r obsRoles) {
+	terms := map[string]vparam{}
+	for _, v := range vparams(obs) {
+		terms[v.Term()] = v
+		if isUint16(v.Type()) {
+			r.vb = v
+		}
+	}
+	var ints []*ssa.FreeVar
+	intTerm := map[*ssa.FreeVar]string{}
+	for _, fv := range cb.FreeVars {
+		b, has := bindingOf(fv)
+		if !has {
+			continue
+		}
+		var o string
+		if al, isAl := unwrap(b).(*ssa.Alloc); isAl {
+			if sv, one := singleStore(al); one {
+				o = w.Origin(sv)
+			}
+		} else {
+			o = w.Origin(b)
+		}
+		if o == "recv" {
+			r.rN = fv.Name()
+			continue
+		}
+		v, isIn := terms[o]
+		if !isIn {
+			continue
+		}
+		switch {
+		case isInt(v.Type()):
+			ints = append(ints, fv)
+			intTerm[fv] = o
+		case strings.HasSuffix(v.Type().String(), ".VbUUID"):
+			r.brN, r.br = fv.Name(), v
+		}
+	}
+	if len(ints) != 2 {
+		return
+	}
+	for _, fv := range ints {
+		cmp := false
+		for _, f := range withAnon(cb) {
+			allInstrs(f, func(in ssa.Instruction) {
+				if bo, isB := in.(*ssa.BinOp); isB && (bo.Op == token.EQL || bo.Op == token.NEQ) {
+					x, y := w.Origin(bo.X), w.Origin(bo.Y)
+					if (x == "recv.activeGroupID" && y == intTerm[fv]) || (y == "recv.activeGroupID" && x == intTerm[fv]) {
+						cmp = true
+					}
+				}
+			})
+		}
+		if !cmp {
+			// … or inside a predicate of the mitigation the callback hands it to (`r.isStale(groupID)`)
+			for _, f := range withAnon(cb) {
+				allInstrs(f, func(in ssa.Instruction) {
+					cc := callOf(in)
+					if cc == nil || cc.StaticCallee() == nil || !w.inModule(cc.StaticCallee()) || cc.StaticCallee().Blocks == nil {
+						return
+					}
+					g := cc.StaticCallee()
+					for i, a := range cc.Args {
+						if w.Origin(a) != intTerm[fv] || i >= len(g.Params) {
+							continue
+						}
+						want := "param(" + g.Params[i].Name() + ")"
+						allInstrs(g, func(x ssa.Instruction) {
+							if bo, isB := x.(*ssa.BinOp); isB && (bo.Op == token.EQL || bo.Op == token.NEQ) {
+								xo, yo := w.Origin(bo.X), w.Origin(bo.Y)
+								if (xo == "recv.activeGroupID" && yo == want) || (yo == "recv.activeGroupID" && xo == want) {
+									cmp = true
+								}
+							}
+						})
+					}
+				})
+			}
+		}
+		if cmp {
+			r.genN, r.gen = fv.Name(), terms[intTerm[fv]]
+		} else {
+			r.idxN, r.idx = fv.Name(), terms[intTerm[fv]]
+		}
+	}
+	r.ok = r.rN != "" && r.idxN != "" && r.genN != "" && r.brN != "" && r.vb.P != nil
+	return
 }
 
 // mitigationLifecycle (C07/C13): the plumbing around the observe callback, as path languages and must-happen clauses.
@@ -1311,7 +1428,13 @@ func cbLoadReader(c *Ctx, id string) {
 			return fmt.Sprintf("%s: %d documents installed, Done signalled %d times", outcomes[r], len(stores), len(dones))
 		}
 		doc := avString(stores[0].Args[2])
-		if k := avString(stores[0].Args[1]); !strings.Contains(k, fn.Params[0].Name()) {
+		vbName := fn.Params[0].Name()
+		for _, prm := range fn.Params {
+			if isUint16(prm.Type()) {
+				vbName = prm.Name() // by type: the reader may take a context in front of its vBucket id
+			}
+		}
+		if k := avString(stores[0].Args[1]); !strings.Contains(k, vbName) {
 			return "installed under " + k + ", not under the reader's own vBucket id"
 		}
 		switch r {
@@ -1332,6 +1455,62 @@ func cbLoadReader(c *Ctx, id string) {
 		}
 		return ""
 	}, "document → installed, exists; unparsable / key-not-found → empty document, existence untouched; other error → panic; Done once")
+	// "a checkpoint exists" starts out false and is what Load reports: the flag the readers raise is the second result,
+	// and Load itself only ever stores false into it (before the readers are started)
+	var flag *ssa.Alloc
+	allInstrs(ld, func(in ssa.Instruction) {
+		if r, ok := in.(*ssa.Return); ok && in.Parent() == ld && len(r.Results) == 3 {
+			switch u := unwrap(r.Results[1]).(type) {
+			case *ssa.UnOp:
+				flag, _ = u.X.(*ssa.Alloc)
+			case *ssa.Call: // an atomic.Bool read with Load()
+				if k, m := atomicMethod(u.Common().StaticCallee()); k == "Bool" && m == "Load" && len(u.Common().Args) == 1 {
+					flag, _ = u.Common().Args[0].(*ssa.Alloc)
+				}
+			}
+		}
+	})
+	if flag == nil {
+		c.Fail(id, "cb-load-exists", ld.Pos(), "the existence result of Load is not the flag its readers raise: %s", w.Origin(retOf(ld, 1)))
+		return
+	}
+	captured := false
+	for _, fv := range fn.FreeVars {
+		if b, ok := bindingOf(fv); ok && b == ssa.Value(flag) {
+			captured = true
+		}
+	}
+	nInit, bad := 0, ""
+	_, isAtomic := flag.Type().(*types.Pointer).Elem().Underlying().(*types.Struct) // atomic.Bool: the zero value is false
+	for _, r := range *flag.Referrers() {
+		if st, ok := r.(*ssa.Store); ok && st.Addr == ssa.Value(flag) {
+			nInit++
+			if w.Origin(st.Val) != "const(false)" {
+				bad = w.Origin(st.Val)
+			}
+		}
+		if call, ok := r.(*ssa.Call); ok && call.Parent() == ld {
+			if k, m := atomicMethod(call.Common().StaticCallee()); k == "Bool" && m == "Store" && len(call.Common().Args) == 2 && w.Origin(call.Common().Args[1]) != "const(false)" {
+				bad = w.Origin(call.Common().Args[1])
+			}
+		}
+	}
+	if isAtomic && nInit == 0 {
+		nInit = 1
+	}
+	c.Check(captured && nInit == 1 && bad == "", id, "cb-load-exists", flag.Pos(), "Load reports the flag its readers raise; it starts out false",
+		fmt.Sprintf("the existence flag Load returns: captured by the reader: %v, stores in Load: %d, a store of %q — with no document found Load would still report that checkpoints exist and the auto-reset never applies", captured, nInit, bad))
+}
+
+// retOf: result i of the (single) return of fn.
+func retOf(fn *ssa.Function, i int) ssa.Value {
+	var v ssa.Value
+	allInstrs(fn, func(in ssa.Instruction) {
+		if r, ok := in.(*ssa.Return); ok && in.Parent() == fn && i < len(r.Results) {
+			v = r.Results[i]
+		}
+	})
+	return v
 }
 
 // observeRoundAccounting (C07): one observe round hands out exactly one completion per (vBucket, copy): for each copy
@@ -1359,6 +1538,9 @@ func observeRoundAccounting(c *Ctx, id string) {
 		}
 	}
 	c.need(cb != nil && len(cb.Params) == 2, id, "the Range callback of the observe round")
+	c.need(len(ob.AnonFuncs) == 1, id, "rollbackMitigation.observe with one callback closure")
+	roles := observeRoles(w, ob, ob.AnonFuncs[0])
+	c.need(roles.ok, id, "observe(vbID, copy index, generation, branch id, wait group)")
 	owner := rootFn(cb)
 	c.need(len(owner.Params) >= 2, id, "the round's owner takes the generation")
 	rN, genN := owner.Params[0].Name(), owner.Params[len(owner.Params)-1].Name()
@@ -1417,22 +1599,26 @@ func observeRoundAccounting(c *Ctx, id string) {
 			// each observe is for its own copy index, this vBucket, this generation, the recorded branch, this round's group
 			seen := map[string]bool{}
 			for _, e := range obs {
-				if len(e.Args) != 6 {
-					return "unexpected observe arity: " + e.String()
+				aVb, aIdx, aBr := effectVArg(e, ob, roles.vb), effectVArg(e, ob, roles.idx), effectVArg(e, ob, roles.br)
+				if aVb == nil || aIdx == nil || aBr == nil {
+					return "unexpected observe arguments: " + e.String()
 				}
-				idx := avString(e.Args[2])
+				idx := avString(aIdx)
 				if seen[idx] {
 					return "copy " + idx + " is observed twice"
 				}
 				seen[idx] = true
-				if i, ok := e.Args[2].(avInt); !ok || i.atom != "" || i.conc < 0 || int(i.conc) >= kk || st.B(fmt.Sprintf("absent%d", i.conc)) {
+				if i, ok := aIdx.(avInt); !ok || i.atom != "" || i.conc < 0 || int(i.conc) >= kk || st.B(fmt.Sprintf("absent%d", i.conc)) {
 					return "an absent or non-existing copy is observed: " + e.String()
 				}
-				if !strings.Contains(avString(e.Args[1]), cb.Params[0].Name()) {
+				if !strings.Contains(avString(aVb), cb.Params[0].Name()) {
 					return "observe for another vBucket: " + e.String()
 				}
-				if avString(e.Args[4]) != "recordedBranch" {
-					return "observe under " + avString(e.Args[4]) + ", not under the branch id recorded for the vBucket"
+				if g := effectVArg(e, ob, roles.gen); g == nil || !strings.Contains(avString(g), genN) {
+					return "observe under a generation other than the round's: " + e.String()
+				}
+				if avString(aBr) != "recordedBranch" {
+					return "observe under " + avString(aBr) + ", not under the branch id recorded for the vBucket"
 				}
 			}
 			if b, ok := out.Ret[0].(avBool); !ok || !b.b {
@@ -2586,8 +2772,8 @@ func consumerChain(c *Ctx, id string, start, newDcp *ssa.Function) {
 		switch {
 		case fn.Name() == "NewSimpleConsumer":
 			simple = fn
-		case fname(fn) == "(*dcp.simplifiedConsumer).ConsumeEvent":
-			ce = fn
+		case fn.Synthetic == "" && fn.Name() == "ConsumeEvent" && fn.Signature.Recv() != nil && recvTypeName(fn.Signature.Recv().Type()) == "simplifiedConsumer":
+			ce = fn // pointer or value receiver
 		case fn != newDcp && fn.Parent() == nil && (len(callsIn(fn, newDcp)) > 0 || fn.Name() == "NewDcp" || fn.Name() == "NewExtendedDcp"):
 			ctors = append(ctors, fn)
 		}
@@ -2595,7 +2781,11 @@ func consumerChain(c *Ctx, id string, start, newDcp *ssa.Function) {
 	c.need(simple != nil && ce != nil && len(ctors) >= 2, id, "NewSimpleConsumer / simplifiedConsumer.ConsumeEvent / the constructors")
 	// the field that keeps the listener: the function-typed field of the simple consumer (whatever it is called)
 	lisField := ""
-	if st, ok := ce.Signature.Recv().Type().(*types.Pointer).Elem().Underlying().(*types.Struct); ok {
+	recvT := ce.Signature.Recv().Type()
+	if pt, isP := recvT.(*types.Pointer); isP {
+		recvT = pt.Elem()
+	}
+	if st, ok := recvT.Underlying().(*types.Struct); ok {
 		for i := 0; i < st.NumFields(); i++ {
 			if _, isSig := st.Field(i).Type().Underlying().(*types.Signature); isSig {
 				lisField = st.Field(i).Name()
@@ -2639,28 +2829,59 @@ func consumerChain(c *Ctx, id string, start, newDcp *ssa.Function) {
 		c.see(fn)
 		bad := ""
 		nCalls := 0
-		allInstrs(fn, func(in ssa.Instruction) {
-			cc := callOf(in)
-			if cc == nil || cc.StaticCallee() == nil || cc.StaticCallee().Pkg != newDcp.Pkg {
-				return
-			}
-			callee := cc.StaticCallee()
-			for i, p := range callee.Params {
-				if named, ok := p.Type().(*types.Named); ok && named.Obj().Name() == "Consumer" && i < len(cc.Args) {
-					nCalls++
-					o := w.Origin(cc.Args[i])
-					okO := false
-					for _, fp := range fn.Params {
+		isConsumer := func(t types.Type) bool {
+			named, ok := t.(*types.Named)
+			return ok && named.Obj().Name() == "Consumer"
+		}
+		var follow func(f *ssa.Function, depth int)
+		follow = func(f *ssa.Function, depth int) {
+			allInstrs(f, func(in ssa.Instruction) {
+				cc := callOf(in)
+				if cc == nil {
+					return
+				}
+				okArg := func(a ssa.Value) bool {
+					o := w.Origin(a)
+					for _, fp := range f.Params {
 						if o == "param("+fp.Name()+")" || o == "call("+fname(simple)+")(param("+fp.Name()+"))" {
-							okO = true
+							return true
 						}
 					}
-					if !okO {
-						bad = o + " @" + w.pos(in.Pos())
+					return false
+				}
+				if callee := cc.StaticCallee(); callee != nil {
+					if callee.Pkg != newDcp.Pkg {
+						return
+					}
+					for i, p := range callee.Params {
+						if isConsumer(p.Type()) && i < len(cc.Args) {
+							nCalls++
+							if !okArg(cc.Args[i]) {
+								bad = w.Origin(cc.Args[i]) + " @" + w.pos(in.Pos())
+							}
+						}
+					}
+					return
+				}
+				// a call through an entry of a package-level table of functions: every entry gets the consumer and is followed
+				if tab := w.funcTableOf(cc.Value); len(tab) > 0 && depth < 2 {
+					for i, a := range cc.Args {
+						if isConsumer(a.Type()) {
+							if !okArg(a) {
+								bad = w.Origin(a) + " @" + w.pos(in.Pos())
+							}
+							for _, e := range tab {
+								if i < len(e.Params) && isConsumer(e.Params[i].Type()) {
+									c.see(e)
+									follow(e, depth+1)
+								}
+							}
+						}
 					}
 				}
-			}
-		})
+			})
+		}
+		follow(fn, 0)
 		c.Check(nCalls > 0 && bad == "", id, "consumer:handed-on@"+fname(fn), fn.Pos(), fmt.Sprintf("%d constructor calls receive the caller's consumer", nCalls), "the constructor hands on "+bad+" instead of the consumer (or wrapped listener) it was given")
 	}
 	// newDcp stores it; Start passes that field and the resolved collection table
